@@ -15,7 +15,7 @@ import (
 func init() {
 	register(&Prop{
 		ID:          "C07",
-		Explanation: "Decides the wiring between stripping and injecting identity headers: NewRequestHeaderInjector gives the same configured header list to the strip builder and the injector builder and composes alice.New(strip, inject) in that order, dropping the strip stage only when the builder returned nil; the strip builder collects header.Name exactly for entries without PreserveRequestValue and returns nil only for an empty collection; the strip handler calls the canonicalising http.Header.Del on the request's header for every collected name unconditionally before calling next; the upstream handler and the auth-only 202 writer are used only as the argument of p.headersChain.Then (whose result is what serves the request), headersChain has one writer, the constructor, fed from buildHeadersChain = alice.New(request injector, response injector); every value written by the injectors derives only from session.GetClaim(...), configured secret bytes, configured prefixes and constants, never from a header read; GetClaim returns no values for a nil session; the inject handlers inject scope.Session into the request's (response's) own header map before next; the legacy conversion sets PreserveRequestValue = !SkipAuthStripHeaders for every element after the last append; claim injectors add a header only on paths where the claim value itself was tested non-empty; getRequestHeaders adds each legacy header group exactly on the paths whose tested flags ask for it (PassBasicAuth||PassUserHeaders -> user headers, PassAccessToken, PassAuthorization, PassBasicAuth&&password -> basic-auth header). Added during the build: a claim source injects only non-empty claim values and the legacy flags map to the documented header groups (R6). GetClaim answers each claim name from the session field of that name only (R7); with request signing configured the upstream proxy overwrites GAP-Auth from its own response header before every hand-off (R8). Round 4: the session the injectors read is this request's own — bearer claims decoded into a per-invocation object, and a request that waited for the refresh lock continues with the reloaded session (R9, shared with C04.R8 and C12.R2).",
+		Explanation: "Decides the wiring between stripping and injecting identity headers: NewRequestHeaderInjector gives the same configured header list to the strip builder and the injector builder and composes alice.New(strip, inject) in that order, dropping the strip stage only when the builder returned nil; the strip builder collects header.Name exactly for entries without PreserveRequestValue and returns nil only for an empty collection; the strip handler calls the canonicalising http.Header.Del on the request's header for every collected name unconditionally before calling next; the upstream handler and the auth-only 202 writer are used only as the argument of p.headersChain.Then (whose result is what serves the request), headersChain has one writer, the constructor, fed from buildHeadersChain = alice.New(request injector, response injector); every value written by the injectors derives only from session.GetClaim(...), configured secret bytes, configured prefixes and constants, never from a header read; GetClaim returns no values for a nil session; the inject handlers inject scope.Session into the request's (response's) own header map before next; the legacy conversion sets PreserveRequestValue = !SkipAuthStripHeaders for every element after the last append; claim injectors add a header only on paths where the claim value itself was tested non-empty; getRequestHeaders adds each legacy header group exactly on the paths whose tested flags ask for it (PassBasicAuth||PassUserHeaders -> user headers, PassAccessToken, PassAuthorization, PassBasicAuth&&password -> basic-auth header). Added during the build: a claim source injects only non-empty claim values and the legacy flags map to the documented header groups (R6). GetClaim answers each claim name from the session field of that name only (R7); with request signing configured the upstream proxy overwrites GAP-Auth from its own response header before every hand-off (R8). Round 4: the session the injectors read is this request's own — bearer claims decoded into a per-invocation object, and a request that waited for the refresh lock continues with the reloaded session (R9, shared with C04.R8 and C12.R2). Round 5: the operator's injected-header configuration is read-only between option loading and the injector builders (R10).",
 		NotDecided:  "per-option value tables of the legacy flags (which claims each flag maps to); header-name normalisation by upstream servers (underscore/dash); values produced by GetClaim for each claim name.",
 		Run:         runC07,
 	})
@@ -31,6 +31,8 @@ func runC07(c *Ctx) {
 	r.Rule("R7-claim-field-table", "GetClaim answers each claim name from the session field of that name only; nothing for unknown claims or a nil session", 9)
 	r.Rule("R8-gap-auth-replaced", "with signing configured, GAP-Auth is overwritten from the proxy's own response header before every hand-off to an upstream handler", 2)
 	r.Rule("R9-session-belongs-to-request", "the session the injectors read is this request's own: bearer claims are decoded into a per-invocation object (shared with C04.R8) and a request that waited for the refresh lock continues with the reloaded session (shared with C12.R2)", 4)
+	r.Rule("R10-header-config-verbatim", "the operator's injected-header configuration (headers and their value lists) is never written between option loading and the injector builders", 3)
+	runC07R10(c, "R10-header-config-verbatim")
 	r.Rule("R5-legacy-conversion", "PreserveRequestValue = !SkipAuthStripHeaders applied to every element after the last append", 1)
 
 	// ---- R1 ---------------------------------------------------------------------------------
@@ -1065,4 +1067,48 @@ func (c *Ctx) stripHandlerFn(rule string) *ssa.Function {
 	}
 	c.anchors[found[0]] = true
 	return found[0]
+}
+
+// runC07R10: the injectors are built at start-up from Options.InjectRequestHeaders / InjectResponseHeaders, after
+// validation has looked at the same slices. Every use of those two lists and of each Header.Values outside
+// pkg/apis/options is read-only — no element store, no sort/copy into them, no append into a shortened alias (the
+// filter-in-place idiom), also through helpers — so the values a header carries are the ones configured.
+func runC07R10(c *Ctx, rule string) {
+	var fields []*types.Var
+	for _, n := range []string{"pkg/apis/options.Options.InjectRequestHeaders", "pkg/apis/options.Options.InjectResponseHeaders", "pkg/apis/options.Header.Values"} {
+		if f := c.Field(rule, n); f != nil {
+			fields = append(fields, f)
+		}
+	}
+	for _, f := range fields {
+		n, bad := 0, false
+		for _, ref := range c.fieldRefs(f) {
+			if strings.HasPrefix(prog.Short(prog.FnPkg(ref.Fn).Path()), "pkg/apis/options") {
+				continue
+			}
+			if ref.Store != nil {
+				bad = true
+				c.bad(rule, "field-store|"+f.Name()+"|"+fnKey(ref.Fn), ref.In, f.Name()+" is reassigned outside option loading", nil, 0)
+				continue
+			}
+			v, ok := ref.In.(ssa.Value)
+			if !ok || v.Referrers() == nil {
+				continue
+			}
+			if _, isSlice := v.Type().Underlying().(*types.Slice); !isSlice {
+				continue
+			}
+			n++
+			if why := mutatesSlice(c, v, 0); why != "" {
+				bad = true
+				c.bad(rule, "mutated|"+f.Name()+"|"+fnKey(ref.Fn), ref.In, "the operator's "+f.Name()+" list is "+why+" before the injectors are built from it: a header then carries other values than configured (a static value lost, session values repeated)", nil, 0)
+			}
+		}
+		switch {
+		case n == 0:
+			c.R.Unknown(rule, "readers|"+f.Name(), "-", "no reader of "+f.Name()+" found")
+		case !bad:
+			c.R.OK(rule, "read-only|"+f.Name(), "-", sprintf("%d use(s) of %s outside option loading, all read-only", n, f.Name()))
+		}
+	}
 }
